@@ -306,6 +306,19 @@ func (t *Transaction) Insert(op *ovsdb.Operation) (ovsdb.OperationResult, *updat
 		return ovsdb.ResultFromError(err), nil
 	}
 
+	// the UUID must be new to the table: a row stored under it, or inserted or
+	// deleted under it earlier in this transaction, makes it a duplicate
+	inTransaction := false
+	if tCache := t.Cache.Table(op.Table); tCache != nil {
+		inTransaction = tCache.HasRow(op.UUID)
+	}
+	_, deleted := t.DeletedRows[op.UUID]
+	stored, _ := t.Database.Get(t.DbName, op.Table, op.UUID)
+	if inTransaction || deleted || stored != nil {
+		return ovsdb.ResultFromError(ovsdb.NewConstraintViolation(fmt.Sprintf(
+			"duplicate uuid: %s is already the UUID of a row of table %s", op.UUID, op.Table))), nil
+	}
+
 	update := updates.ModelUpdates{}
 	err := update.AddOperation(t.Model, op.Table, op.UUID, nil, op)
 	if err != nil {
